@@ -630,8 +630,18 @@ class Row:
     def __len__(self) -> int:
         return len(self._v)
 
+    def items(self) -> list[tuple[str, Any]]:
+        # not part of sqlite3.Row; only here so that dict(row) works under CrossHair, whose dict() shim knows
+        # Mapping instances and iterables of pairs but not the keys()/__getitem__ protocol sqlite3.Row relies on
+        return list(zip(self._c, self._v))
+
     def __repr__(self) -> str:
         return "Row(%r)" % dict(zip(self._c, self._v))
+
+
+import collections.abc as _abc  # noqa: E402
+
+_abc.Mapping.register(Row)
 
 
 def _truth(v: Any) -> bool:
